@@ -172,6 +172,14 @@ impl Deserializable for Context {
         // read options
         let options = ProofOptions::read_from(source)?;
 
+        // the LDE domain must be addressable: both factors come from untrusted bytes
+        if trace_info.length().checked_mul(options.blowup_factor()).is_none() {
+            return Err(DeserializationError::InvalidValue(
+                "trace length and blowup factor describe an LDE domain that is too large"
+                    .to_string(),
+            ));
+        }
+
         // read total number of constraints
         let num_constraints = source.read_usize()?;
 
